@@ -23,7 +23,8 @@ From Coq Require Import String Lia FMapPositive.
 From MW Require Import Model.Base Model.F64 Model.Num Model.Datum Model.TransformDef Model.Transform
   Model.VmTypes Model.Heap Model.Gc Model.VmBase Model.Compile Model.Vm
   Proofs.VmProofs0 Proofs.GcProofs Proofs.SymtabProofs Proofs.QuoteHeapProofs
-  Proofs.CompileProofs Proofs.RunProofs Proofs.CompileCorrect Proofs.TailProofs Proofs.FrameSteps.
+  Proofs.CompileProofs Proofs.RunProofs Proofs.CompileCorrect Proofs.TailProofs Proofs.FrameSteps
+  Proofs.CellFuelProofs.
 From MW Require Proofs.ScopeProofs.
 Open Scope N_scope.
 
@@ -1564,3 +1565,88 @@ Proof.
 Qed.
 Lemma builtin_envs_unspecified ob b : builtin_envs ob (fun _ _ => None) b.
 Proof. intros m v m' rs r H. discriminate. Qed.
+
+(* ============================================================ ... with the final conversion *)
+Section EvalDone2.
+Variable ob : N -> M vcell.
+Variable bsem : N -> list rval -> option rval.
+Hypothesis Hb : forall b, builtin_ok ob bsem b.
+Hypothesis He : forall b, builtin_envs ob bsem b.
+
+Theorem eval_fragment2_done e rho r rho' s :
+  wf_expr2 e [] -> ref_eval2 bsem [] [] rho e r rho' -> minv s -> genv_rel rho s ->
+  transform_expr TRANSFORM_FUEL s (cell_of2 e) = Ok (cell_of2 e) ->
+  exists n m,
+    vrep (acc m) r (hp m) (st m) /\ genv_rel rho' m /\ minv m /\ cext s m /\
+    sp m = sp s /\ bp m = bp s /\ ep m = ep s /\ out_log m = out_log s /\
+    (forall fuel, (n <= fuel)%nat -> eval ob fuel (cell_of2 e) s = halt_result m) /\
+    (halt_result m <> RNoFuel \/ (no_ptr_cells (hp m) /\ (rcost r <= cell_fuel m)%nat) ->
+     forall fuel, (n <= fuel)%nat ->
+       eval ob fuel (cell_of2 e) s = ROk (Done (rcell r)) (with_stack m tempty (sp m))).
+Proof.
+  intros Hwf HR MI G Htr.
+  destruct (eval_fragment2 ob bsem Hb He e rho r rho' s Hwf HR MI G Htr)
+    as (n & m & Hev & V & G' & MI' & X & Hsp & Hbp & Hep & Hlog).
+  exists n, m. do 8 (split; [assumption|]). split; [exact Hev|].
+  intros Hprem fuel Hf. rewrite (Hev fuel Hf).
+  destruct Hprem as [Hnf|[NP Hc]].
+  - apply halt_result_done_nofuel; assumption.
+  - apply halt_result_done_cost; assumption.
+Qed.
+End EvalDone2.
+Print Assumptions eval_fragment2_done.
+
+(* ============================================================ non-vacuity *)
+(* ((lambda (x y) (if x y 'no)) #t '(1 2)) *)
+Definition ex2_list : cell := CPair (CNum (Fixnum 1)) (CPair (CNum (Fixnum 2)) CNil).
+Definition ex2_e : expr2 :=
+  XLet [S_ "x"; S_ "y"] (XIf (XVar (S_ "x")) (XVar (S_ "y")) (XQuote (CSym (S_ "no"))))
+       [XConst (CBool true); XQuote ex2_list].
+
+Lemma ex2_hypotheses :
+  wf_expr2 ex2_e [] /\ minv (vm_empty 8192) /\ genv_rel rho_empty (vm_empty 8192) /\
+  ref_eval2 bsem_not [] [] rho_empty ex2_e (RDatum ex2_list) rho_empty.
+Proof.
+  split.
+  { cbn [wf_expr2 ex2_e]. split; [reflexivity|]. split; [intros x [<-|[<-|[]]]; reflexivity|].
+    split; [reflexivity|]. split; [exists []; split; [vm_compute; reflexivity|intros x []]|].
+    split; [cbn; repeat split|cbn; repeat split]. }
+  split; [apply minv_vm_empty; reflexivity|]. split; [intros x r H; discriminate|].
+  eapply R2_let.
+  - eapply R2_cons; [apply R2_const|]. eapply R2_cons; [apply R2_quote|apply R2_nil].
+  - eapply R2_if_t.
+    + apply (R2_local bsem_not _ _ _ _ 0); reflexivity.
+    + reflexivity.
+    + apply (R2_local bsem_not _ _ _ _ 1); reflexivity.
+Qed.
+
+(* ((lambda (x) ((lambda (y z) (if y z 'no)) x '(1 2))) #t): the inner application is in tail
+   position of the outer body (TCALL, 2 arguments into a frame of 1), the outer one in tail
+   position of the top-level lambda (TCALL, 1 argument into a frame of 0); the operand x of
+   the inner application is a parameter of the outer lambda *)
+Definition ex3_e : expr2 :=
+  XLet [S_ "x"]
+    (XLet [S_ "y"; S_ "z"] (XIf (XVar (S_ "y")) (XVar (S_ "z")) (XQuote (CSym (S_ "no"))))
+          [XVar (S_ "x"); XQuote ex2_list])
+    [XConst (CBool true)].
+
+Lemma ex3_hypotheses :
+  wf_expr2 ex3_e [] /\ ref_eval2 bsem_not [] [] rho_empty ex3_e (RDatum ex2_list) rho_empty.
+Proof.
+  split.
+  { cbn [wf_expr2 ex3_e]. split; [reflexivity|]. split; [intros x [<-|[]]; reflexivity|].
+    split; [reflexivity|]. split; [exists []; split; [vm_compute; reflexivity|intros x []]|].
+    split; [|cbn; repeat split].
+    split; [reflexivity|]. split; [intros x [<-|[<-|[]]]; reflexivity|].
+    split; [reflexivity|]. split; [exists []; split; [vm_compute; reflexivity|intros x []]|].
+    split; [cbn; repeat split|cbn; repeat split]. }
+  eapply R2_let.
+  - eapply R2_cons; [apply R2_const|apply R2_nil].
+  - eapply R2_let.
+    + eapply R2_cons; [apply (R2_local bsem_not _ _ _ _ 0); reflexivity|].
+      eapply R2_cons; [apply R2_quote|apply R2_nil].
+    + eapply R2_if_t.
+      * apply (R2_local bsem_not _ _ _ _ 0); reflexivity.
+      * reflexivity.
+      * apply (R2_local bsem_not _ _ _ _ 1); reflexivity.
+Qed.
